@@ -1,6 +1,6 @@
 (** Lemmas about the command-line model (C20). *)
 From Coq Require Import ZArith Lia ZifyBool ZifyN ZifyNat.
-From Rocfl Require Import Base.Bytes Generated.Consts Model.Cli Model.KnownC20.
+From Rocfl Require Import Base.Bytes Generated.Consts Model.Cli.
 Open Scope N_scope.
 
 Arguments N.add : simpl never.
@@ -155,41 +155,28 @@ Proof.
   rewrite exit_validate_invalid_val, exit_validate_operational_val. reflexivity.
 Qed.
 
-Lemma validate_repo_exit_is_gen : forall f rr,
-  validate_repo_exit f rr = validate_repo_exit_gen false true true f rr.
+Lemma vr_app_empty_l : forall r, vr_app empty_vr r = r.
+Proof. intros [e w]. reflexivity. Qed.
+
+(** validate.rs:222-223: the root result and the hierarchy result are both counted after
+    their suppression (:144 and :201) *)
+Lemma storage_issues_pos : forall f rr,
+  (0 <? validate_repo_storage_issues f rr) = unsuppressed f (rr_root rr) || unsuppressed f (rr_hier rr).
 Proof.
-  intros f rr. unfold validate_repo_exit, validate_repo_exit_gen.
-  change (suppress f empty_vr) with empty_vr.
-  replace (vr_app empty_vr (rr_hier rr)) with (rr_hier rr) by (destruct (rr_hier rr); reflexivity).
-  reflexivity.
+  intros f rr. unfold validate_repo_storage_issues, validate_repo_root, validate_repo_hier.
+  rewrite vr_app_empty_l, storage_errors_pos.
+  fold (has_errors (suppress f (rr_root rr))). fold (has_errors (suppress f (rr_hier rr))).
+  rewrite !has_errors_suppress. reflexivity.
 Qed.
 
-(** the pinned code: the root result enters the count unsuppressed *)
 Lemma validate_repo_exit_spec : forall f rr,
   validate_repo_exit f rr =
-  exit_of (objects_invalid_after_suppression f (rr_objects rr)
-           || (has_errors (rr_root rr) || unsuppressed f (rr_hier rr)))
-          (existsb is_verr (rr_objects rr)).
-Proof.
-  intros f rr. rewrite validate_repo_exit_is_gen.
-  unfold validate_repo_exit_gen, exit_of, objects_invalid_after_suppression.
-  rewrite vloop_invalid, vloop_err, storage_errors_pos. cbn [vs_init vs_invalid vs_err orb].
-  change (0 <? 0) with false. cbn [orb].
-  fold (has_errors (rr_root rr)). fold (has_errors (suppress f (rr_hier rr))).
-  rewrite has_errors_suppress.
-  rewrite exit_validate_invalid_val, exit_validate_operational_val. reflexivity.
-Qed.
-
-Lemma validate_repo_exit_fixed_spec : forall f rr,
-  validate_repo_exit_fixed f rr =
   exit_of (repo_invalid_after_suppression f rr) (existsb is_verr (rr_objects rr)).
 Proof.
-  intros f rr. unfold validate_repo_exit_fixed, validate_repo_exit_gen, exit_of,
+  intros f rr. unfold validate_repo_exit, exit_of,
     repo_invalid_after_suppression, objects_invalid_after_suppression.
-  rewrite vloop_invalid, vloop_err, storage_errors_pos. cbn [vs_init vs_invalid vs_err orb].
+  rewrite vloop_invalid, vloop_err, storage_issues_pos. cbn [vs_init vs_invalid vs_err orb].
   change (0 <? 0) with false. cbn [orb].
-  fold (has_errors (suppress f (rr_root rr))). fold (has_errors (suppress f (rr_hier rr))).
-  rewrite !has_errors_suppress.
   rewrite exit_validate_invalid_val, exit_validate_operational_val.
   destruct (unsuppressed f (rr_root rr)), (existsb (vobj_invalid f) (rr_objects rr)),
     (unsuppressed f (rr_hier rr)); reflexivity.
@@ -247,47 +234,10 @@ Lemma validate_objects_exit_0_iff : forall f objs,
   objects_invalid_after_suppression f objs = false /\ existsb is_verr objs = false.
 Proof. intros f objs. rewrite validate_objects_exit_spec. apply exit_of_0. Qed.
 
-(** repository mode, repaired code: unconditional *)
-Lemma validate_repo_fixed_exit_2_iff : forall f rr,
-  validate_repo_exit_fixed f rr = 2 <-> repo_invalid_after_suppression f rr = true.
-Proof. intros f rr. rewrite validate_repo_exit_fixed_spec. apply exit_of_2. Qed.
-
-(** the pinned code and the repaired code agree outside the known class ... *)
-Lemma validate_repo_exit_eq_fixed : forall f rr,
-  c20_root_suppression f rr = false -> validate_repo_exit f rr = validate_repo_exit_fixed f rr.
-Proof.
-  intros f rr Hk. rewrite validate_repo_exit_spec, validate_repo_exit_fixed_spec.
-  unfold c20_root_suppression, repo_invalid_after_suppression in *.
-  rewrite (has_errors_split f (rr_root rr)).
-  destruct (unsuppressed f (rr_root rr)), (objects_invalid_after_suppression f (rr_objects rr)),
-    (unsuppressed f (rr_hier rr)),
-    (existsb (fun e => memN e (vf_sup_e f)) (vr_errors (rr_root rr)));
-    cbn [orb andb negb] in *; try reflexivity; discriminate.
-Qed.
-
-(** ... and inside the class the pinned code reports 2 although nothing invalid is left *)
-Lemma validate_repo_exit_in_class : forall f rr,
-  c20_root_suppression f rr = true ->
-  validate_repo_exit f rr = 2 /\ repo_invalid_after_suppression f rr = false /\
-  validate_repo_exit_fixed f rr <> 2.
-Proof.
-  intros f rr Hk. unfold c20_root_suppression in Hk. apply andb_true_iff in Hk.
-  destruct Hk as [Hs Hn]. apply negb_true_iff in Hn.
-  split; [|split].
-  - rewrite validate_repo_exit_spec. apply exit_of_2.
-    rewrite (has_errors_split f (rr_root rr)). rewrite Hs.
-    rewrite orb_true_r. cbn [orb]. apply orb_true_r.
-  - exact Hn.
-  - rewrite validate_repo_fixed_exit_2_iff. rewrite Hn. discriminate.
-Qed.
-
+(** repository mode: unconditional *)
 Lemma validate_repo_exit_2_iff : forall f rr,
-  c20_root_suppression f rr = false ->
-  (validate_repo_exit f rr = 2 <-> repo_invalid_after_suppression f rr = true).
-Proof.
-  intros f rr Hk. rewrite (validate_repo_exit_eq_fixed f rr Hk).
-  apply validate_repo_fixed_exit_2_iff.
-Qed.
+  validate_repo_exit f rr = 2 <-> repo_invalid_after_suppression f rr = true.
+Proof. intros f rr. rewrite validate_repo_exit_spec. apply exit_of_2. Qed.
 
 Lemma repo_invalid_spec : forall f rr,
   repo_invalid_after_suppression f rr = true <->
@@ -300,32 +250,23 @@ Proof.
 Qed.
 
 Lemma validate_repo_exit_2_iff_prop : forall f rr,
-  c20_root_suppression f rr = false ->
-  (validate_repo_exit f rr = 2 <->
-   (exists e, In e (vr_errors (rr_root rr)) /\ ~ In e (vf_sup_e f)) \/
-   (exists r e, In (VRes r) (rr_objects rr) /\ In e (vr_errors r) /\ ~ In e (vf_sup_e f)) \/
-   (exists e, In e (vr_errors (rr_hier rr)) /\ ~ In e (vf_sup_e f))).
+  validate_repo_exit f rr = 2 <->
+  (exists e, In e (vr_errors (rr_root rr)) /\ ~ In e (vf_sup_e f)) \/
+  (exists r e, In (VRes r) (rr_objects rr) /\ In e (vr_errors r) /\ ~ In e (vf_sup_e f)) \/
+  (exists e, In e (vr_errors (rr_hier rr)) /\ ~ In e (vf_sup_e f)).
 Proof.
-  intros f rr Hk. rewrite (validate_repo_exit_2_iff f rr Hk). apply repo_invalid_spec.
+  intros f rr. rewrite validate_repo_exit_2_iff. apply repo_invalid_spec.
 Qed.
 
 Lemma validate_repo_exit_1_iff : forall f rr,
-  c20_root_suppression f rr = false ->
-  (validate_repo_exit f rr = 1 <->
-   repo_invalid_after_suppression f rr = false /\ existsb is_verr (rr_objects rr) = true).
-Proof.
-  intros f rr Hk. rewrite (validate_repo_exit_eq_fixed f rr Hk), validate_repo_exit_fixed_spec.
-  apply exit_of_1.
-Qed.
+  validate_repo_exit f rr = 1 <->
+  repo_invalid_after_suppression f rr = false /\ existsb is_verr (rr_objects rr) = true.
+Proof. intros f rr. rewrite validate_repo_exit_spec. apply exit_of_1. Qed.
 
 Lemma validate_repo_exit_0_iff : forall f rr,
-  c20_root_suppression f rr = false ->
-  (validate_repo_exit f rr = 0 <->
-   repo_invalid_after_suppression f rr = false /\ existsb is_verr (rr_objects rr) = false).
-Proof.
-  intros f rr Hk. rewrite (validate_repo_exit_eq_fixed f rr Hk), validate_repo_exit_fixed_spec.
-  apply exit_of_0.
-Qed.
+  validate_repo_exit f rr = 0 <->
+  repo_invalid_after_suppression f rr = false /\ existsb is_verr (rr_objects rr) = false.
+Proof. intros f rr. rewrite validate_repo_exit_spec. apply exit_of_0. Qed.
 
 Lemma validate_exit_range : forall f objs rr,
   (validate_objects_exit f objs = 0 \/ validate_objects_exit f objs = 1 \/ validate_objects_exit f objs = 2) /\
@@ -335,23 +276,207 @@ Proof.
   split; apply exit_of_range.
 Qed.
 
-(** the witness: `validate -e E069` on a repository whose only problem is the missing
-    root declaration (one valid object with a W005 warning) *)
-Lemma validate_root_suppression_witness :
+(** `validate -e E069` on a repository whose only problem is the missing root declaration
+    (one valid object with a W005 warning): exit status 0, the root block lists nothing,
+    "Storage issues: 0"; with a second, unsuppressed root error (E080): exit status 2 and
+    only that error is listed *)
+Lemma validate_root_suppression_examples :
   let f := mkVF false false LvInfo [] [69] in
   let rr := mkRR (mkVR [69] []) [VRes (mkVR [] [5])] empty_vr in
-  c20_root_suppression f rr = true /\
-  validate_repo_exit f rr = 2 /\
+  let rr2 := mkRR (mkVR [69; 80] [16]) [VRes (mkVR [] [5])] empty_vr in
   repo_invalid_after_suppression f rr = false /\
-  validate_repo_exit_fixed f rr = 0.
+  validate_repo_exit f rr = 0 /\
+  validate_repo_root_block f rr = Some ([], []) /\
+  validate_repo_storage_issues f rr = 0 /\
+  validate_repo_exit f rr2 = 2 /\
+  validate_repo_root_block f rr2 = Some ([80], [16]) /\
+  validate_repo_storage_issues f rr2 = 1.
 Proof. vm_compute. repeat split; reflexivity. Qed.
 
-Lemma validate_exit_2_iff_refuted :
-  ~ (forall f rr, validate_repo_exit f rr = 2 <-> repo_invalid_after_suppression f rr = true).
+(* ------------------------------------------------------------------ validate: what is written about the storage *)
+
+Lemma suppress_errors_spec : forall f r e,
+  In e (vr_errors (suppress f r)) <-> In e (vr_errors r) /\ ~ In e (vf_sup_e f).
 Proof.
-  intro H.
-  destruct validate_root_suppression_witness as [_ [H2 [Hn _]]].
-  apply H in H2. rewrite Hn in H2. discriminate.
+  intros f r e. unfold suppress. cbn [vr_errors]. rewrite filter_In. split; intros [H1 H2]; (split; [exact H1|]).
+  - intro Hs. apply memN_In in Hs. rewrite Hs in H2. discriminate.
+  - destruct (memN e (vf_sup_e f)) eqn:Hm; [|reflexivity].
+    apply memN_In in Hm. contradiction.
+Qed.
+
+Lemma suppress_warnings_spec : forall f r w,
+  In w (vr_warnings (suppress f r)) <-> In w (vr_warnings r) /\ ~ In w (vf_sup_w f).
+Proof.
+  intros f r w. unfold suppress. cbn [vr_warnings]. rewrite filter_In. split; intros [H1 H2]; (split; [exact H1|]).
+  - intro Hs. apply memN_In in Hs. rewrite Hs in H2. discriminate.
+  - destruct (memN w (vf_sup_w f)) eqn:Hm; [|reflexivity].
+    apply memN_In in Hm. contradiction.
+Qed.
+
+(** a written block lists exactly the unsuppressed errors, and only unsuppressed warnings *)
+Lemma storage_block_sound : forall f r es ws,
+  storage_block f (suppress f r) = Some (es, ws) ->
+  (forall e, In e es <-> In e (vr_errors r) /\ ~ In e (vf_sup_e f)) /\
+  (forall w, In w ws -> In w (vr_warnings r) /\ ~ In w (vf_sup_w f)).
+Proof.
+  intros f r es ws H. unfold storage_block in H.
+  destruct (should_print f (suppress f r)); [|discriminate].
+  inversion H as [[He Hw]]. split.
+  - intro e. apply suppress_errors_spec.
+  - intros w Hin. destruct (level_eqb (vf_level f) LvError).
+    + destruct Hin.
+    + apply suppress_warnings_spec. exact Hin.
+Qed.
+
+Lemma In_has_errors : forall r e, In e (vr_errors r) -> has_errors r = true.
+Proof. intros r e Hin. unfold has_errors. destruct (vr_errors r); [destruct Hin | reflexivity]. Qed.
+
+Lemma In_has_warnings : forall r w, In w (vr_warnings r) -> has_warnings r = true.
+Proof. intros r w Hin. unfold has_warnings. destruct (vr_warnings r); [destruct Hin | reflexivity]. Qed.
+
+(** an unsuppressed error is always written, whatever -l says *)
+Lemma storage_block_error_shown : forall f r e,
+  In e (vr_errors r) -> ~ In e (vf_sup_e f) ->
+  exists es ws, storage_block f (suppress f r) = Some (es, ws) /\ In e es.
+Proof.
+  intros f r e Hin Hn.
+  assert (Hs : In e (vr_errors (suppress f r))) by (apply suppress_errors_spec; auto).
+  unfold storage_block, should_print. rewrite (In_has_errors _ _ Hs). cbn [orb].
+  eexists. eexists. split; [reflexivity | exact Hs].
+Qed.
+
+(** an unsuppressed warning is written unless -l error *)
+Lemma storage_block_warning_shown : forall f r w,
+  In w (vr_warnings r) -> ~ In w (vf_sup_w f) -> vf_level f <> LvError ->
+  exists es ws, storage_block f (suppress f r) = Some (es, ws) /\ In w ws.
+Proof.
+  intros f r w Hin Hn Hl.
+  assert (Hs : In w (vr_warnings (suppress f r))) by (apply suppress_warnings_spec; auto).
+  assert (Hlv : level_eqb (vf_level f) LvError = false)
+    by (destruct (vf_level f); try reflexivity; exfalso; apply Hl; reflexivity).
+  unfold storage_block, should_print. rewrite (In_has_warnings _ _ Hs), Hlv. cbn [negb andb].
+  rewrite orb_true_r. cbn [orb].
+  eexists. eexists. split; [reflexivity | exact Hs].
+Qed.
+
+Lemma validate_repo_hier_eq : forall f rr, validate_repo_hier f rr = suppress f (rr_hier rr).
+Proof. intros f rr. unfold validate_repo_hier. rewrite vr_app_empty_l. reflexivity. Qed.
+
+Lemma validate_repo_blocks_sound : forall f rr,
+  (forall es ws, validate_repo_root_block f rr = Some (es, ws) ->
+     (forall e, In e es <-> In e (vr_errors (rr_root rr)) /\ ~ In e (vf_sup_e f)) /\
+     (forall w, In w ws -> In w (vr_warnings (rr_root rr)) /\ ~ In w (vf_sup_w f))) /\
+  (forall es ws, validate_repo_hier_block f rr = Some (es, ws) ->
+     (forall e, In e es <-> In e (vr_errors (rr_hier rr)) /\ ~ In e (vf_sup_e f)) /\
+     (forall w, In w ws -> In w (vr_warnings (rr_hier rr)) /\ ~ In w (vf_sup_w f))).
+Proof.
+  intros f rr. unfold validate_repo_root_block, validate_repo_hier_block, validate_repo_root.
+  rewrite validate_repo_hier_eq. split; intros es ws H; apply (storage_block_sound _ _ _ _ H).
+Qed.
+
+Lemma validate_repo_blocks_complete : forall f rr,
+  (forall e, In e (vr_errors (rr_root rr)) -> ~ In e (vf_sup_e f) ->
+     exists es ws, validate_repo_root_block f rr = Some (es, ws) /\ In e es) /\
+  (forall e, In e (vr_errors (rr_hier rr)) -> ~ In e (vf_sup_e f) ->
+     exists es ws, validate_repo_hier_block f rr = Some (es, ws) /\ In e es) /\
+  (forall w, In w (vr_warnings (rr_root rr)) -> ~ In w (vf_sup_w f) -> vf_level f <> LvError ->
+     exists es ws, validate_repo_root_block f rr = Some (es, ws) /\ In w ws) /\
+  (forall w, In w (vr_warnings (rr_hier rr)) -> ~ In w (vf_sup_w f) -> vf_level f <> LvError ->
+     exists es ws, validate_repo_hier_block f rr = Some (es, ws) /\ In w ws).
+Proof.
+  intros f rr. unfold validate_repo_root_block, validate_repo_hier_block, validate_repo_root.
+  rewrite validate_repo_hier_eq. repeat split.
+  - apply storage_block_error_shown.
+  - apply storage_block_error_shown.
+  - apply storage_block_warning_shown.
+  - apply storage_block_warning_shown.
+Qed.
+
+(** "Storage issues: 0" exactly when neither storage result keeps an unsuppressed error *)
+Lemma validate_repo_storage_issues_zero_iff : forall f rr,
+  validate_repo_storage_issues f rr = 0 <->
+  (forall e, In e (vr_errors (rr_root rr)) -> In e (vf_sup_e f)) /\
+  (forall e, In e (vr_errors (rr_hier rr)) -> In e (vf_sup_e f)).
+Proof.
+  intros f rr.
+  assert (Hz : validate_repo_storage_issues f rr = 0 <-> (0 <? validate_repo_storage_issues f rr) = false).
+  { split; intro H.
+    - rewrite H. reflexivity.
+    - apply N.ltb_ge in H. lia. }
+  rewrite Hz, storage_issues_pos, orb_false_iff.
+  assert (Hu : forall r, unsuppressed f r = false <-> (forall e, In e (vr_errors r) -> In e (vf_sup_e f))).
+  { intro r. split.
+    - intros H e Hin. destruct (memN e (vf_sup_e f)) eqn:Hm; [apply memN_In; exact Hm|].
+      assert (Ht : unsuppressed f r = true).
+      { apply unsuppressed_spec. exists e. split; [exact Hin|].
+        intro Hs. apply memN_In in Hs. rewrite Hs in Hm. discriminate. }
+      rewrite Ht in H. discriminate.
+    - intro H. destruct (unsuppressed f r) eqn:Hun; [|reflexivity].
+      apply unsuppressed_spec in Hun. destruct Hun as [e [Hin Hn]]. exfalso. apply Hn, H, Hin. }
+  rewrite !Hu. reflexivity.
+Qed.
+
+(* ------------------------------------------------------------------ before the repair (historical note) *)
+
+(** validate_repo as it was before commit 33c0c45 counted the root result unsuppressed *)
+Lemma validate_repo_exit_before_fix_spec : forall f rr,
+  validate_repo_exit_before_fix f rr =
+  exit_of (objects_invalid_after_suppression f (rr_objects rr)
+           || (has_errors (rr_root rr) || unsuppressed f (rr_hier rr)))
+          (existsb is_verr (rr_objects rr)).
+Proof.
+  intros f rr. unfold validate_repo_exit_before_fix, exit_of, objects_invalid_after_suppression.
+  change (suppress f empty_vr) with empty_vr. rewrite vr_app_empty_l.
+  rewrite vloop_invalid, vloop_err, storage_errors_pos. cbn [vs_init vs_invalid vs_err orb].
+  change (0 <? 0) with false. cbn [orb].
+  fold (has_errors (rr_root rr)). fold (has_errors (suppress f (rr_hier rr))).
+  rewrite has_errors_suppress.
+  rewrite exit_validate_invalid_val, exit_validate_operational_val. reflexivity.
+Qed.
+
+(** The repair changed the exit status exactly on the inputs of the former known finding
+    `validate-root-suppression`: some error of the storage root is suppressed by the user
+    and nothing invalid is left.  There the old code answered 2. *)
+Lemma validate_repo_before_fix_differs_iff : forall f rr,
+  validate_repo_exit_before_fix f rr <> validate_repo_exit f rr <->
+  (exists e, In e (vr_errors (rr_root rr)) /\ In e (vf_sup_e f)) /\
+  repo_invalid_after_suppression f rr = false.
+Proof.
+  intros f rr.
+  assert (Hs : existsb (fun e => memN e (vf_sup_e f)) (vr_errors (rr_root rr)) = true <->
+               exists e, In e (vr_errors (rr_root rr)) /\ In e (vf_sup_e f)).
+  { rewrite existsb_exists. split; intros [e [H1 H2]]; exists e; (split; [exact H1|]); apply memN_In; exact H2. }
+  rewrite <- Hs.
+  rewrite validate_repo_exit_before_fix_spec, validate_repo_exit_spec.
+  rewrite (has_errors_split f (rr_root rr)).
+  unfold repo_invalid_after_suppression, exit_of.
+  destruct (unsuppressed f (rr_root rr)), (objects_invalid_after_suppression f (rr_objects rr)),
+    (unsuppressed f (rr_hier rr)),
+    (existsb (fun e => memN e (vf_sup_e f)) (vr_errors (rr_root rr))),
+    (existsb is_verr (rr_objects rr)); cbn [orb];
+    (split; intro H;
+     [ try (exfalso; apply H; reflexivity); split; reflexivity
+     | destruct H as [H1 H2]; try discriminate H1; try discriminate H2; discriminate ]).
+Qed.
+
+Lemma validate_repo_before_fix_in_class : forall f rr,
+  validate_repo_exit_before_fix f rr <> validate_repo_exit f rr ->
+  validate_repo_exit_before_fix f rr = 2 /\ validate_repo_exit f rr <> 2.
+Proof.
+  intros f rr H. apply validate_repo_before_fix_differs_iff in H. destruct H as [[e [Hin Hs]] Hn].
+  split.
+  - rewrite validate_repo_exit_before_fix_spec. apply exit_of_2.
+    rewrite (In_has_errors _ _ Hin). cbn [orb]. apply orb_true_r.
+  - rewrite validate_repo_exit_2_iff, Hn. discriminate.
+Qed.
+
+(** the old behaviour violated the property: `validate -e E069`, only problem E069 *)
+Lemma validate_before_fix_violated_property :
+  exists f rr, validate_repo_exit_before_fix f rr = 2 /\ repo_invalid_after_suppression f rr = false /\
+               validate_repo_exit f rr = 0.
+Proof.
+  exists (mkVF false false LvInfo [] [69]), (mkRR (mkVR [69] []) [VRes (mkVR [] [5])] empty_vr).
+  vm_compute. repeat split; reflexivity.
 Qed.
 
 (* ------------------------------------------------------------------ monotonicity of suppression *)
@@ -386,19 +511,7 @@ Lemma validate_repo_mono : forall f f' rr,
   incl (vf_sup_e f) (vf_sup_e f') ->
   validate_repo_exit f' rr = 2 -> validate_repo_exit f rr = 2.
 Proof.
-  intros f f' rr Hincl H. rewrite validate_repo_exit_spec in *. rewrite exit_of_2 in *.
-  rewrite !orb_true_iff in *.
-  destruct H as [Ho | [Hr | Hh]].
-  - left. apply (objects_invalid_mono f f' _ Hincl Ho).
-  - right. left. exact Hr.
-  - right. right. apply (unsuppressed_mono f f' _ Hincl Hh).
-Qed.
-
-Lemma validate_repo_fixed_mono : forall f f' rr,
-  incl (vf_sup_e f) (vf_sup_e f') ->
-  validate_repo_exit_fixed f' rr = 2 -> validate_repo_exit_fixed f rr = 2.
-Proof.
-  intros f f' rr Hincl H. rewrite validate_repo_fixed_exit_2_iff in *.
+  intros f f' rr Hincl H. rewrite validate_repo_exit_2_iff in *.
   unfold repo_invalid_after_suppression in *. rewrite !orb_true_iff in *.
   destruct H as [[Hr | Ho] | Hh].
   - left. left. apply (unsuppressed_mono f f' _ Hincl Hr).
@@ -409,13 +522,11 @@ Qed.
 Lemma suppression_monotone_all : forall f f' objs rr,
   incl (vf_sup_e f) (vf_sup_e f') ->
   (validate_objects_exit f objs = 0 -> validate_objects_exit f' objs <> 2) /\
-  (validate_repo_exit f rr = 0 -> validate_repo_exit f' rr <> 2) /\
-  (validate_repo_exit_fixed f rr = 0 -> validate_repo_exit_fixed f' rr <> 2).
+  (validate_repo_exit f rr = 0 -> validate_repo_exit f' rr <> 2).
 Proof.
-  intros f f' objs rr Hincl. split; [|split]; intros H0 H2.
+  intros f f' objs rr Hincl. split; intros H0 H2.
   - apply (validate_objects_mono f f' objs Hincl) in H2. rewrite H2 in H0. discriminate.
   - apply (validate_repo_mono f f' rr Hincl) in H2. rewrite H2 in H0. discriminate.
-  - apply (validate_repo_fixed_mono f f' rr Hincl) in H2. rewrite H2 in H0. discriminate.
 Qed.
 
 (* ------------------------------------------------------------------ ls *)
@@ -440,9 +551,9 @@ Qed.
 (* ------------------------------------------------------------------ one command *)
 
 Lemma exit_zero_iff_success : forall c,
-  c20_known c = false -> (cli_exit c = 0 <-> cmd_success c = true).
+  cli_exit c = 0 <-> cmd_success c = true.
 Proof.
-  intros c Hk. destruct c as [o | o | f objs | f call | | ]; cbn [cli_exit cmd_success].
+  intros c. destruct c as [o | o | f objs | f call | | ]; cbn [cli_exit cmd_success].
   - apply main_exit_zero_iff.
   - apply ls_exit_zero_iff.
   - rewrite validate_objects_exit_0_iff.
@@ -450,22 +561,13 @@ Proof.
       cbn [negb andb]; split; intro H; try reflexivity; try discriminate;
       try (destruct H; discriminate); split; reflexivity.
   - destruct call as [rr|]; cbn [validate_repo_cmd_exit].
-    + cbn [c20_known] in Hk. rewrite (validate_repo_exit_0_iff f rr Hk).
+    + rewrite (validate_repo_exit_0_iff f rr).
       destruct (repo_invalid_after_suppression f rr), (existsb is_verr (rr_objects rr));
         cbn [negb andb]; split; intro H; try reflexivity; try discriminate;
         try (destruct H; discriminate); split; reflexivity.
     + rewrite exit_main_err_val. split; discriminate.
   - rewrite exit_main_err_val. split; discriminate.
   - unfold EXIT_USAGE. split; discriminate.
-Qed.
-
-(** inside the known class the exit status is not truthful *)
-Lemma exit_zero_iff_success_refuted :
-  exists c, c20_known c = true /\ cmd_success c = true /\ cli_exit c = 2.
-Proof.
-  exists (OValidateRepo (mkVF false false LvInfo [] [69])
-            (Some (mkRR (mkVR [69] []) [VRes (mkVR [] [5])] empty_vr))).
-  vm_compute. repeat split; reflexivity.
 Qed.
 
 (* ------------------------------------------------------------------ options -> calls *)
